@@ -17,6 +17,7 @@ import (
 	"os"
 	"os/exec"
 	"path/filepath"
+	"strconv"
 	"strings"
 	"testing"
 	"time"
@@ -92,15 +93,14 @@ func startGrowBroker() error {
 		return err
 	}
 	go growCmd.Wait()
-	for i := 0; i < 300; i++ {
-		c, err := net.DialTimeout("tcp", growAddr, 100*time.Millisecond)
-		if err == nil {
-			c.Close()
-			return nil
-		}
-		time.Sleep(20 * time.Millisecond)
+	_, ps, _ := net.SplitHostPort(growAddr)
+	port, _ := strconv.Atoi(ps)
+	if !vstat.WaitListener(growCmd.Process.Pid, port, 10*time.Second) {
+		growCmd.Process.Kill()
+		growCmd = nil
+		return fmt.Errorf("broker did not come up on %s (port taken by another process?)", growAddr)
 	}
-	return fmt.Errorf("broker did not come up")
+	return nil
 }
 
 func appendLog(n int) error {
